@@ -139,6 +139,23 @@ def systematic():
                 qs.append(grp(a, {"t": "optional", "g": grp(kp)}, {"t": "bind", "e": {"e": "coalesce", "args": [ev("k"), ec(N(0))]}, "v": "k2"}))
             qs.append(grp(a, bd, {"t": "filter", "e": {"e": "=", "a": ev("k"), "b": ec(N(2))}}))
             qs.append(grp(a, bd, {"t": "optional", "g": grp(bgp((V("x"), I("q"), V("w")), ), {"t": "filter", "e": {"e": "=", "a": ev("w"), "b": ev("k")}})}))
+    # joins whose operands are not plain patterns: a DISTINCT sub-select / nested join on one side, OPTIONAL- or UNION-unbound
+    # shared variables on the other, in both operand orders
+    for a in A_POOL[:3]:
+        for b in B_POOL[:4]:
+            left = {"t": "group", "g": grp(a, {"t": "optional", "g": grp(b)})}
+            leftu = {"t": "group", "g": grp({"t": "union", "gs": [grp(a), grp(b)]})}
+            for zv in ("z", "y", "x"):
+                sub = {"t": "subselect", "q": {"form": "select", "proj": [zv], "distinct": True, "where": grp(bgp((V("s1"), I("q"), V(zv))))}}
+                nest = {"t": "group", "g": grp(bgp((V("s1"), I("q"), V(zv))), {"t": "group", "g": grp(bgp((V("s1"), I("p"), V("o1"))))})}
+                for l in (left, leftu):
+                    for r in (sub, nest):
+                        qs.append(grp(l, r))
+                        qs.append(grp(r, l))
+    # a variable bound by the outermost BGP and used in the FILTER of an OPTIONAL (for trailing VALUES / initBindings)
+    for fe in ({"e": "=", "a": ev("z"), "b": ev("y")}, {"e": "<", "a": ev("y"), "b": ev("z")}, {"e": "!=", "a": ev("z"), "b": ev("y")}):
+        qs.append(grp(bgp((V("x"), I("p"), V("y"))), {"t": "optional", "g": grp(bgp((V("x"), I("q"), V("z"))), {"t": "filter", "e": fe})}))
+        qs.append(grp(bgp((V("x"), I("p"), V("y"))), {"t": "optional", "g": grp(bgp((V("w"), I("q"), V("z"))), {"t": "filter", "e": fe})}))
     for a in A_POOL + B_POOL:
         for f in FILTERS:
             qs.append(grp(a, {"t": "filter", "e": f}))
